@@ -51,11 +51,12 @@ def large_mapping_cases(rng, tier):
     out = []
     for (n, m) in [(2, 128), (2, 129), (2, 130), (1, 300)] + ([] if quick else [(3, 129), (2, 300), (129, 2), (257, 1), (17, 16), (3, 257)]):
         out.append(dict(kind='unary', n=n, m=m, large=True))
-    for _ in range(2 if quick else 8):
+    for k in range(2 if quick else 8):
         n = rng.choice([135, 150, 200, 300])
         D = rng.choice([129, 130])
         verts = list(range(1, n + 1))
-        hu, hv = rng.choice([1, 2, n // 2, n]), rng.choice([1, 3, n // 2 + 1, n])
+        low, high = rng.choice([1, 2, 3]), rng.choice([n - 2, n - 1, n])
+        hu, hv = (low, high) if k % 2 == 0 else (high, low)          # hubs at either end of the numbering, on either side
         edges = {(hu, w) for w in rng.sample(verts, D)} | {(w, hv) for w in rng.sample(verts, D)}
         target = len(edges) + rng.choice([20, 60])
         while len(edges) < target:
@@ -70,6 +71,13 @@ def large_mapping_cases(rng, tier):
 
 def sampled_failing(rng, which, mc, f, cname, constraints, off, nvar, samples=8):
     """large instances: the constraints against the functional meaning on sampled assignments"""
+    try:
+        return sampled_failing_(rng, which, mc, f, cname, constraints, off, nvar, samples)
+    except Exception as e:  # noqa  (the mapping object itself fails on a legal index)
+        return {'mapping-object-raises': repr(e)}
+
+
+def sampled_failing_(rng, which, mc, f, cname, constraints, off, nvar, samples=8):
     if which == 'surjective' and mc['kind'] == 'binary':
         return None
     if len(constraints) > 60000:
@@ -110,7 +118,10 @@ def sampled_failing(rng, which, mc, f, cname, constraints, off, nvar, samples=8)
     for true_ids in cands[:samples + 2]:
         ts = set(true_ids)
         a = [None] + [False] * off + [(i in ts) for i in ids]
-        want = meaning(which, mc, f, a)
+        try:
+            want = meaning(which, mc, f, a)
+        except Exception as e:  # noqa  (an identifier of the mapping outside the variables of the formula)
+            return {'mapping-variable-outside-the-formula': repr(e), 'variables': nvar}
         if want is None:
             return None
         try:
